@@ -157,10 +157,12 @@ class MessageSigner(object):
             x += self._generator.order()
             if x >= self._generator.p():
                 raise EncodingError("no point for this recovery id")
-        q = self._generator.possible_public_pairs_for_signature(
+        pairs = self._generator.possible_public_pairs_for_signature(
             msg_hash, (x, s), y_parity=y_parity
-        )[0]
-        return q, is_compressed
+        )
+        if len(pairs) == 0 or pairs[0] == self._generator.infinity():
+            raise EncodingError("no public pair for this signature")
+        return pairs[0], is_compressed
 
     def pair_matches_key(self, pair: Any, key: Any, is_compressed: bool) -> bool:
         # Check signing public pair is the one expected for the signature. It must be an
@@ -212,7 +214,10 @@ class MessageSigner(object):
         Decode the internal fields of the base64-encoded signature.
         """
 
-        sig = a2b_base64(signature)
+        try:
+            sig = a2b_base64(signature)
+        except ValueError:
+            raise EncodingError("Not base64")
         if len(sig) != 65:
             raise EncodingError("Wrong length, expected 65")
 
@@ -230,6 +235,11 @@ class MessageSigner(object):
         #
         first -= 27
         is_compressed = bool(first & 0x4)
+
+        # like any ecdsa signature, r and s must be in [1, order - 1]
+        order = self._generator.order()
+        if not (0 < r < order and 0 < s < order):
+            raise EncodingError("r or s out of range")
 
         return is_compressed, (first & 0x3), r, s
 
